@@ -728,13 +728,22 @@ def run(ctx, chk, tier="quick"):
                 if pr[0] == "bin" and pr[1] == "=" and pr[2][0] == "col" and pr[2][2] == "epoch" and pr[3][0] == "param":
                     where_param = pr[3][1]
             a = [strip(x) for x in up[0].params_node.args]
+            # through temporaries:  valid_epochs = time_grid[valid_mask].tolist()
+            for k_ in range(len(a)):
+                for _h in range(3):
+                    if isinstance(a[k_], ast.Name) and wflow.def_value(a[k_]) is not None and not isinstance(wflow.def_value(a[k_]), ast.Name):
+                        a[k_] = strip(wflow.def_value(a[k_]))
             ok = set_param is not None and where_param is not None
+            readable_up = ok and all(isinstance(x, ast.Subscript) for x in (a[set_param], a[where_param]))
             if ok:
                 lab_arg, ep_arg = a[set_param], a[where_param]
                 ok = isinstance(ep_arg, ast.Subscript) and base_name(ep_arg.value) == gridp and isinstance(lab_arg, ast.Subscript) \
                     and base_name(lab_arg.value) != gridp and ast.unparse(ep_arg.slice) == ast.unparse(lab_arg.slice)
-            chk.ob("C10.O5", ok, where_of(wl, up[0].call), "UPDATE grid_time SET data_interval=?%s WHERE epoch=?%s <- %s" % (set_param, where_param, ast.unparse(up[0].params_node)[:90]),
-                   "(label, epoch) of the same masked instants bound to (SET, WHERE)", key="populate_water_level|label-update")
+            if not ok and not readable_up:
+                chk.indeterminate("C10.O5", where_of(wl, up[0].call), "values bound to the UPDATE of grid_time (%s) are not two masked arrays" % ast.unparse(up[0].params_node)[:80])
+            else:
+                chk.ob("C10.O5", ok, where_of(wl, up[0].call), "UPDATE grid_time SET data_interval=?%s WHERE epoch=?%s <- %s" % (set_param, where_param, ast.unparse(up[0].params_node)[:90]),
+                       "(label, epoch) of the same masked instants bound to (SET, WHERE)", key="populate_water_level|label-update")
 
 
 def _is_agg(e):
